@@ -66,38 +66,36 @@ Proof. exact orig_refuted. Qed.
 Print Assumptions C20_orig_refuted.
 
 (* ---------------- airtime ---------------- *)
-(* air_domain pl sf bw pre cr : 0<=pl<=255, 5<=sf<=12, bw in {125,250,500,812,1625} kHz, 0<=pre<=64, 1<=cr<=4 *)
+(* air_domain pl sf bw pre cr : 0<=pl<=255, 5<=sf<=12, bw in {125,250,500,812,1625} kHz, 0<=pre<=64, 1<=cr<=4.
+   spec_*: Semtech time on air, SX126x/SX128x form for SF5/SF6 (n+6.25, no +8, 4*SF) and AN1200.13 form for SF7..12. *)
 
-(* symbol count = AN1200.13 formula, for ALL payload sizes / SF / header / LDRO; error exactly for CR outside 1..4 *)
-Theorem C20_symbols_formula : forall pl sf cr header ldro,
+(* symbol count = the formula, for ALL payload sizes, header / LDRO settings and every SF >= 3; error exactly for CR outside 1..4 *)
+Theorem C20_symbols_formula : forall pl sf cr header ldro, 3 <= sf ->
   payload_symbols pl sf cr header ldro =
   if (1 <=? cr) && (cr <=? 4) then Ok (spec_npayload pl sf cr header ldro) else Err.
 Proof. exact symbols_formula. Qed.
 Print Assumptions C20_symbols_formula.
 
-(* the symbol duration used is the floor (in ns) of the formula's 2^SF / BW *)
+(* the symbol-duration helper is the floor (in ns) of the formula's 2^SF / BW *)
 Theorem C20_symbol_duration_floor : forall sf bw, 5 <= sf <= 12 -> In bw bw_list ->
   symbol_duration sf bw = Ok (Qfloor (spec_tsym sf bw)).
 Proof. exact symbol_duration_floor. Qed.
 Print Assumptions C20_symbol_duration_floor.
 
-(* time on air = formula exactly (in ns) for 125/250/500 kHz *)
+(* time on air = the formula's value truncated to whole nanoseconds, on the whole domain (no overflow, panic or error) *)
+Theorem C20_airtime_formula : forall pl sf bw pre cr header ldro,
+  air_domain pl sf bw pre cr ->
+  airtime pl sf bw pre cr header ldro = Ok (Qfloor (spec_airtime pl sf bw pre cr header ldro)).
+Proof. exact airtime_formula_floor. Qed.
+Print Assumptions C20_airtime_formula.
+
+(* for 125/250/500 kHz the formula's value is a whole number of ns: equality in Q *)
 Theorem C20_airtime_formula_exact : forall pl sf bw pre cr header ldro,
   air_domain pl sf bw pre cr -> In bw [125; 250; 500] ->
   exists v, airtime pl sf bw pre cr header ldro = Ok v /\
             (inject_Z v == spec_airtime pl sf bw pre cr header ldro)%Q.
 Proof. exact airtime_formula_exact. Qed.
 Print Assumptions C20_airtime_formula_exact.
-
-(* ... and for every listed bandwidth within the integer truncation of the code:
-   formula - (total symbols + 1) ns < result <= formula *)
-Theorem C20_airtime_formula : forall pl sf bw pre cr header ldro,
-  air_domain pl sf bw pre cr ->
-  exists v, airtime pl sf bw pre cr header ldro = Ok v /\
-  (spec_airtime pl sf bw pre cr header ldro - (spec_total_symbols pl sf pre cr header ldro + 1) < inject_Z v
-   /\ inject_Z v <= spec_airtime pl sf bw pre cr header ldro)%Q.
-Proof. exact airtime_formula_bound. Qed.
-Print Assumptions C20_airtime_formula.
 
 (* never decreases with the payload size *)
 Theorem C20_airtime_mono : forall pl1 pl2 sf bw pre cr header ldro,
@@ -106,6 +104,17 @@ Theorem C20_airtime_mono : forall pl1 pl2 sf bw pre cr header ldro,
                 airtime pl2 sf bw pre cr header ldro = Ok v2 /\ v1 <= v2.
 Proof. exact airtime_mono. Qed.
 Print Assumptions C20_airtime_mono.
+
+(* the code before the two airtime repairs (findings C20-2, C20-3): SF5 used the SF7..12 expression
+   (10 bytes, SF5, 125 kHz: 12.864 ms instead of 12.096 ms); with 812 kHz the truncated symbol duration was
+   multiplied by the symbol count (255 bytes, SF7, CR 4/8: 287 ns below the truncated formula) *)
+Theorem C20_airtime_orig_refuted :
+  airtime_orig 10 5 125 8 1 true false = Ok 12864000 /\ Qfloor (spec_airtime 10 5 125 8 1 true false) = 12096000 /\
+  airtime 10 5 125 8 1 true false = Ok 12096000 /\
+  airtime_orig 255 7 812 8 4 true false = Ok 96512028 /\ Qfloor (spec_airtime 255 7 812 8 4 true false) = 96512315 /\
+  airtime 255 7 812 8 4 true false = Ok 96512315.
+Proof. exact airtime_orig_refuted. Qed.
+Print Assumptions C20_airtime_orig_refuted.
 
 (* ---------------- EIRP ---------------- *)
 Theorem C20_eirp_table : eirp_table = [8; 10; 12; 13; 14; 16; 18; 20; 21; 24; 26; 27; 29; 30; 33; 36]%Q.
